@@ -512,9 +512,13 @@ impl<'a> VisitMut for Rw<'a> {
                     self.log.add("R13", "subst-stmt", format!("{txt} => {to}"));
                     match syn::parse_str::<Stmt>(&to) {
                         Ok(ns) => s = ns,
-                        Err(e) => {
-                            self.err = Some(format!("subst target does not parse: {e}"));
-                            continue;
+                        // a tail expression (no semicolon) is replaced by a tail expression
+                        Err(e) => match syn::parse_str::<Expr>(&to) {
+                            Ok(ne) => s = Stmt::Expr(ne, None),
+                            Err(_) => {
+                                self.err = Some(format!("subst target does not parse: {e}"));
+                                continue;
+                            },
                         },
                     }
                 }
